@@ -1,0 +1,18 @@
+//go:build verif
+
+package gate
+
+import (
+	"github.com/spf13/viper"
+
+	"go.minekube.com/gate/pkg/gate/config"
+)
+
+// Verification hook for property C37 (add-only, no logic): exposes the strict
+// live-reload loader so that a harness outside this package can run the
+// serialize-and-reload round trip through the same code path as a config reload.
+
+// VerifLoadLiveConfigCandidate forwards to loadLiveConfigCandidate.
+func VerifLoadLiveConfigCandidate(v *viper.Viper, configPath string) (*config.Config, error) {
+	return loadLiveConfigCandidate(v, configPath)
+}
